@@ -739,34 +739,53 @@ def make_jouter(cls_form):
     def jitted(self):
       return self.inner(), self.other()
 
+    def quiet(self, x):
+      # draws nothing; rejects a wrong shape while it is traced
+      if x.shape[0] != 2:
+        raise ValueError('quiet: expected 2 entries')
+      return x * 2.0
+
     def program(self, plan):
       out = []
       for step in plan:
         if step == 'j':
           out.extend(self.jitted())
+        elif step == 'q':
+          self.quiet(jnp.ones((2,)))
+        elif step == 'r':
+          # a jitted call that raises; the caller handles it and goes on
+          try:
+            self.quiet(jnp.ones((3,)))
+          except ValueError:
+            pass
         else:
           out.append(self.peek(step))
       return out
 
   if cls_form:
-    return nn.jit(JOuter, methods=['jitted'])
+    return nn.jit(JOuter, methods=['jitted', 'quiet'])
   JOuter.jitted = nn.jit(JOuter.jitted)
+  JOuter.quiet = nn.jit(JOuter.quiet)
   return JOuter
 
 
 @clause('linen_jit_history',
         strategy=lambda: st.tuples(
-            st.lists(st.lists(st.sampled_from([0, 0, 1, 'j']), min_size=1,
-                              max_size=5).filter(lambda p: 'j' in p),
+            st.lists(st.lists(st.sampled_from([0, 0, 1, 'j', 'q', 'r']),
+                              min_size=1, max_size=5).filter(
+                                  lambda p: 'j' in p),
                      min_size=2, max_size=4),
             st.booleans(), st.integers(0, 2**16)),
         quick=120, thorough=5000, quick_shards=4, shrink=False,
         rule='2-4 programs (sequences of plain draws from two setup-defined '
-        'children and calls of an nn.jit-ed method that draws from both) are '
+        'children, calls of an nn.jit-ed method that draws from both, and calls '
+        'of a jitted method that draws nothing and either succeeds or raises '
+        'and is handled by the caller) are '
         'applied one after the other in one process with the same seed, in the '
         'given and in the reversed order (each order on a fresh class, i.e. a '
         'fresh trace cache): a program returns the same keys whatever ran '
-        'before it, and within one program no key is returned twice; '
+        'before it, within one program no key is returned twice, and a handled '
+        'raising call leaves the streams where a successful one leaves them; '
         'non-trivial = two programs differ only in the number of plain draws '
         'before the jitted call')
 def linen_jit_history(case, ctx):
@@ -793,7 +812,22 @@ def linen_jit_history(case, ctx):
                 'earlier in the process')
       else:
         results[plan] = (order_name, hi, got)
+  # a jitted call that raised and was handled leaves the streams where a
+  # successful call that draws nothing leaves them
+  for plan in plans:
+    if 'r' in plan:
+      twin = tuple('q' if st_ == 'r' else st_ for st_ in plan)
+      with sut('apply (twin without the raising call)'):
+        keys = make_jouter(cls_form)().apply({}, twin, rngs={'noise': key},
+                                             method='program')
+      got = [tuple(np.asarray(k).tolist()) for k in keys]
+      require(got == results[plan][2], lambda: f'program {plan} (a jitted '
+              'call raises and is handled) returns other keys than the same '
+              f'program with a successful call in its place: '
+              f'{results[plan][2]} vs {got}')
   nt = any(a != b and len(a) != len(b) and [x for x in a if x == 'j'] ==
            [x for x in b if x == 'j'] for a in plans for b in plans)
   ctx.note(labels=['cls-methods' if cls_form else 'decorator',
-                   f'plans{len(plans)}'], nontrivial=nt)
+                   f'plans{len(plans)}'] + (
+                       ['raising-call'] if any('r' in p for p in plans) else []),
+           nontrivial=nt)
